@@ -375,6 +375,7 @@ def judge(d, mc, stats):
                 stats["res_missing"] += 1
             else:
                 stats["res"] += 1
+                stats["seen"].add(n)
                 stats["res_max"] = max(stats["res_max"], abs(res))
                 if not abs(res) <= TOL_LOG:
                     if alt_pe:
@@ -477,7 +478,7 @@ def new_stats():
     return {k: 0 for k in ("rx", "rx_nontrivial", "lk", "lk_analytic", "lk_vanthoff", "res", "res_missing", "res_altpe_skipped",
                            "readouts", "sums", "si", "si_skipped", "gate", "dumps", "runs", "runs_error", "runs_nodump",
                            "above_1atm", "rewritten_valence_masters", "rewritten_relative_to_switched_basis",
-                           "states_with_redox_couple", "stale_states", "stale_states_excused", "couples")} | {"res_max": 0.0}
+                           "states_with_redox_couple", "stale_states", "stale_states_excused", "couples")} | {"res_max": 0.0, "seen": set()}
 
 
 # ------------------------------------------------------------------------------------------ database tie
@@ -641,7 +642,7 @@ def check_runs(ctx, exe, dbname, db, dblines, texts, stats):
     return findings, runs
 
 
-def run_db(ctx, exe, dbname, nruns, seed_rng, stats, cov):
+def run_db(ctx, exe, dbname, nruns, seed_rng, stats, cov, sweep=False):
     db = dbparse.parse(str(vlib.REPO / "database" / dbname))
     dblines = dbparse.to_lines(db, dbname)
     texts, metas = [], []
@@ -649,6 +650,10 @@ def run_db(ctx, exe, dbname, nruns, seed_rng, stats, cov):
         t, m = gens.gen_run(seed_rng, db)
         texts.append(t)
         metas.append(m)
+    if sweep:
+        sw = gens.gen_sweep(db)
+        texts += sw
+        cov["kinds"]["element-sweep"] = cov["kinds"].get("element-sweep", 0) + len(sw)
     for m in metas:
         cov["kinds"][m["kind"]] = cov["kinds"].get(m["kind"], 0) + 1
         for f in set(m["features"]):
@@ -671,7 +676,10 @@ def run_db(ctx, exe, dbname, nruns, seed_rng, stats, cov):
             k, tx, st = futs[fu]
             findings, runs = fu.result()
             for key, v in st.items():
-                stats[key] = max(stats[key], v) if key == "res_max" else stats[key] + v
+                if key == "seen":
+                    stats[key] |= v
+                else:
+                    stats[key] = max(stats[key], v) if key == "res_max" else stats[key] + v
             results.append((k, tx, findings))
     return db, dblines, results
 
@@ -767,7 +775,7 @@ def _run(ctx, ok, exe):
     cov = {k: {} for k in ("kinds", "features", "n_elements", "temp_bins", "ph_bins", "units", "log_molal_bins")}
     dbs, excluded = databases(ctx)
     thorough = ctx.tier == "thorough" or not ok
-    nruns = 1500 if thorough else 250
+    nruns = 4000 if thorough else 250
     # 1. k_calc directly
     bad, nk = kcalc_direct(ctx, exe, 2000 if thorough else 300)
     if bad:
@@ -791,12 +799,14 @@ def _run(ctx, ok, exe):
     for n in dbs:
         t0 = time.time()
         before = dict(stats)
-        db, dblines, results = run_db(ctx, exe, n, nruns, ctx.rng, stats, cov)
+        stats["seen"] = set()
+        db, dblines, results = run_db(ctx, exe, n, nruns, ctx.rng, stats, cov, sweep=thorough)
         a, b = handle_findings(ctx, exe, n, db, dblines, results)
         tot_or += a
         tot_tie += b
         per_db[n] = {"runs": stats["runs"] - before["runs"], "dumps": stats["dumps"] - before["dumps"],
                      "errors": stats["runs_error"] - before["runs_error"], "species_checked": stats["res"] - before["res"],
+                     "distinct_species_checked": len(stats["seen"]), "species_in_database": len(db.species),
                      "wall_s": round(time.time() - t0, 1)}
         ctx.log(n, per_db[n])
         if stats["dumps"] and len(ctx.cov["samples"]) < 3:
@@ -811,6 +821,7 @@ def _run(ctx, ok, exe):
     ctx.cov.update(cov)
     ctx.cov["databases"] = per_db
     ctx.cov["databases_excluded"] = excluded
+    stats.pop("seen", None)
     ctx.cov["counters"] = stats
     ctx.cov["kcalc_direct_calls"] = nk
     ctx.cov["database_items_compared_with_engine"] = ndb_items
@@ -864,4 +875,5 @@ def _replay(ctx, data, exe):
         ctx.violation(f"model and engine disagree: {ctx.tie_breaks[0]['ties'][0]}", dict(ctx.tie_breaks[0], kind="tie"), found_input=False)
     ctx.cov["evaluations"] = stats["res"] + stats["rx"]
     ctx.cov["distinct_nontrivial"] = stats["res"]
+    stats.pop("seen", None)
     ctx.cov["counters"] = stats
